@@ -55,14 +55,25 @@ Theorem C12_stop_rule_getaddrinfo : forall names o, names <> [] ->
 Proof. exact ai_run_correct. Qed.
 Print Assumptions C12_stop_rule_getaddrinfo.
 
-(* ares_getaddrinfo with AF_UNSPEC (an A and an AAAA query per candidate): same rule, the status
-   of a candidate being data if either family gave addresses, else the status of the query that
-   completed last *)
+(* ares_getaddrinfo with AF_UNSPEC (an A and an AAAA query per candidate), with
+   fixes/C12-gai-unspec-nodata.patch: same rule over the status of a candidate, which is data
+   if either family gave addresses, else the status of the query that completed last, a
+   no-data answer of the one that completed first being remembered (ai2_combine) *)
 Theorem C12_stop_rule_getaddrinfo_unspec : forall names o, names <> [] ->
-  ai2_run names o = Ok (spec_queried names (fun i => ai_status (ai2_combine (fst (o i)) (snd (o i)))),
-                        spec_status names (fun i => ai_status (ai2_combine (fst (o i)) (snd (o i))))).
+  ai2_run true names o =
+  Ok (spec_queried names (fun i => ai_status (ai2_combine (cand_single names i) (fst (o i)) (snd (o i)))),
+      spec_status names (fun i => ai_status (ai2_combine (cand_single names i) (fst (o i)) (snd (o i))))).
 Proof. exact ai2_run_correct. Qed.
 Print Assumptions C12_stop_rule_getaddrinfo_unspec.
+
+(* the pinned code forgets a no-data answer of the family that completes first: "h" exists
+   without A data (answered first), the AAAA answer says not found -> ENOTFOUND instead of
+   ENODATA ("reports no-data if any candidate existed without data") *)
+Theorem C12_unspec_nodata_pinned_refuted :
+  ai2_run false [[104%N]] unspec_outcomes = Ok ([[104%N]], ARES_ENOTFOUND) /\
+  ai2_run true [[104%N]] unspec_outcomes = Ok ([[104%N]], ARES_ENODATA).
+Proof. exact ai2_pinned_refuted. Qed.
+Print Assumptions C12_unspec_nodata_pinned_refuted.
 
 (* The pinned search_callback does NOT satisfy the rule: "h" with search domain "d", ndots 1,
    "h.d" without data, then SERVFAIL for the single label "h" reports SERVFAIL, not no-data. *)
